@@ -377,8 +377,47 @@ for pcs, nscr, clob, flags, align, off in itertools.product((False, True), (0, 2
         out.append((key, "", hashlib.sha1(_dump(ir, drop=()).encode()).hexdigest()))
     except Exception as ex:
         out.append((key, "", "EXC " + type(ex).__name__))
+# a module that still needs layout (no addresses): visit order must not depend on object identities / set order
+from contracts.c09_10_11 import unaddressed_rewrite
+for perm in ((0, 1, 2, 3), (3, 2, 1, 0), (2, 0, 3, 1)):
+    out.append((repr(("unaddressed", perm)), "", repr(unaddressed_rewrite(perm))))
 print(json.dumps(out))
 '''
+
+
+def unaddressed_rewrite(creation_order, junk=None):
+    """4 code blocks in a byte interval WITHOUT address (layout needed), block objects created in `creation_order`;
+    a patch defining a temporary label is inserted into every block, registered in offset order.  Returns a UUID-free signature."""
+    import gtirb_rewriting
+    from gtirb_rewriting import Patch, patch_constraints
+    from gtirb_test_helpers import add_edge, add_text_section, create_test_module
+    n = 4
+    ir, m = create_test_module(gtirb.Module.FileFormat.ELF, gtirb.Module.ISA.X64)
+    _, bi = add_text_section(m, address=None)
+    bi.contents = b"\x90" * (2 * n)
+    bi.size = 2 * n
+    blocks = {}
+    for i in creation_order:
+        if junk is not None:
+            junk.append(object())
+        blocks[i] = gtirb.CodeBlock(offset=2 * i, size=2)
+    for i in range(n):
+        blocks[i].byte_interval = bi
+    for i in range(n - 1):
+        add_edge(ir.cfg, blocks[i], blocks[i + 1], gtirb.EdgeType.Fallthrough)
+
+    @patch_constraints()
+    def pat(ctx):
+        return "jmp .Lskip\nnop\n.Lskip:"
+    rc = gtirb_rewriting.RewritingContext(m, [])
+    for i in range(n):
+        rc.insert_at(blocks[i], 0, Patch.from_function(pat))
+    rc.apply()
+    (sect,) = m.sections
+    base = min(b.address for b in sect.byte_blocks)
+    contents = b"".join(bytes(i.contents) for i in sorted(sect.byte_intervals, key=lambda i: i.address))
+    return (contents.hex(), sorted((b.address - base, b.size) for b in sect.byte_blocks),
+            sorted((s.referent.address - base, s.at_end, s.name) for s in m.symbols if s.name.startswith(".L")))
 
 
 def c11_bounded(tier, seed):
@@ -387,8 +426,8 @@ def c11_bounded(tier, seed):
         seeds = [0, 1, 12345] if tier == "quick" else [0, 1, 2, 3, 12345, 99999]
         stride = 3 if tier == "quick" else 1
         kinds = ["plain", "call", "jcc"] if tier == "quick" else None
-        br.bound = "every %d-th scenario of the bounded space (kinds %s), each executed in fresh interpreters with PYTHONHASHSEED in %s; canonical UUID-free dumps (temporary-label names included) compared; plus 96 insertions of a patch with register / stack / flags constraints (preserve_caller_saved_registers, scratch registers, clobbers, flags, alignment)" % (stride, kinds or "all", seeds)
-        br.clauses = ["C11/same-result-under-different-hash-seeds"]
+        br.bound = "every %d-th scenario of the bounded space (kinds %s), each executed in fresh interpreters with PYTHONHASHSEED in %s; canonical UUID-free dumps (temporary-label names included) compared; plus 96 insertions of a patch with register / stack / flags constraints (preserve_caller_saved_registers, scratch registers, clobbers, flags, alignment); plus a module without addresses (layout needed) rebuilt with its 4 block objects created in all 24 orders, twice, in-process, and in 3 orders per hash seed" % (stride, kinds or "all", seeds)
+        br.clauses = ["C11/same-result-under-different-hash-seeds", "C11/same-result-whatever-the-object-identities"]
         results = []
         code = _CHILD % {"root": ROOT, "seed": seed, "kinds": kinds, "stride": stride}
         py = os.path.join(ROOT, ".venv", "bin", "python")
@@ -414,6 +453,21 @@ def c11_bounded(tier, seed):
                                             "detail": "%s vs %s" % (x[2][:12], y[2][:12])})
                         break
             br.samples = [{"scenario": base[0][:2], "dump_sha1": base[0][2]}] if base else []
+        # in-process repetition: same module, same modifications, block objects created in every order (object identities and
+        # therefore set iteration orders differ between builds)
+        import itertools
+        sigs, junk = {}, []
+        for rep in range(2):
+            for perm in itertools.permutations(range(4)):
+                br.cases += 1
+                try:
+                    sig = repr(unaddressed_rewrite(perm, junk))
+                except Exception as ex:       # noqa
+                    sig = "EXC %s" % type(ex).__name__
+                sigs.setdefault(sig, []).append(perm)
+        if len(sigs) > 1:
+            br.failures.append({"clause": "C11/same-result-whatever-the-object-identities", "witness": {"creation orders": [v[0] for v in sigs.values()][:3]},
+                                "detail": "%d distinct results for the same unaddressed module and modifications, e.g. %s" % (len(sigs), [k[-120:] for k in list(sigs)[:2]])})
         return br
     return run
 
